@@ -154,3 +154,70 @@ package fp
 //@   prop C12 C20
 //@   ensures iterTakeWhileStep(r, p, next)
 //
+// DropWhile: before the first non-matching element is found every pulled
+// element satisfied p; afterwards the iterator is `first` (if cached) followed
+// by the rest of the source.
+//
+//@ func (Iterator).DropWhile(r, p) result
+//@   prop C12 C20
+//@   ensures IterPos(r) == 0
+//@   tag construction-pulls-nothing
+//@   loop 0 invariant !found && !first.IsDefined() && IterPos(r) < IterLen(r) && (forall j int :: 0 <= j && j < IterPos(r) ==> p(verifspec.IterAt[T](r, j)))
+//@   loop 0 decreases IterLen(r) - IterPos(r)
+//
+//@ ghost
+//@ func iterDropWhileStep[T any](r Iterator[T], p func(T) bool, next bool) bool {
+//@ 	it := r.DropWhile(p)
+//@ 	verifspec.Havoc(it)
+//@ 	first := verifspec.Cell[Option[T]](it, "first")
+//@ 	found := verifspec.Cell[bool](it, "found")
+//@ 	p0 := verifspec.IterPos(r)
+//@ 	n := verifspec.IterLen(r)
+//@ 	verifspec.Assume(!first.IsDefined() || (found && p0 >= 1 && verifspec.Eq(first.Get(), verifspec.IterAt[T](r, p0-1))))
+//@ 	verifspec.Assume(found || verifspec.Forall(func(j int) bool { return !(0 <= j && j < p0) || p(verifspec.IterAt[T](r, j)) }))
+//@ 	h1 := it.HasNext()
+//@ 	p1 := verifspec.IterPos(r)
+//@ 	first1 := verifspec.Cell[Option[T]](it, "first")
+//@ 	found1 := verifspec.Cell[bool](it, "found")
+//@ 	h2 := it.HasNext()
+//@ 	if h2 != h1 || verifspec.IterPos(r) != p1 {
+//@ 		return false
+//@ 	}
+//@ 	a1 := p1
+//@ 	if first1.IsDefined() {
+//@ 		a1 = p1 - 1
+//@ 	}
+//@ 	if found {
+//@ 		a := p0
+//@ 		if first.IsDefined() {
+//@ 			a = p0 - 1
+//@ 		}
+//@ 		if h1 != (a < n) || p1 != p0 || !found1 || first1.IsDefined() != first.IsDefined() {
+//@ 			return false
+//@ 		}
+//@ 	} else {
+//@ 		if h1 && !(found1 && first1.IsDefined() && p1 >= 1 && verifspec.Eq(first1.Get(), verifspec.IterAt[T](r, p1-1)) && !p(first1.Get())) {
+//@ 			return false
+//@ 		}
+//@ 		if h1 && !verifspec.Forall(func(j int) bool { return !(0 <= j && j < p1-1) || p(verifspec.IterAt[T](r, j)) }) {
+//@ 			return false
+//@ 		}
+//@ 		if !h1 && !(p1 == n && !found1 && !first1.IsDefined() && verifspec.Forall(func(j int) bool { return !(0 <= j && j < n) || p(verifspec.IterAt[T](r, j)) })) {
+//@ 			return false
+//@ 		}
+//@ 	}
+//@ 	if !next {
+//@ 		return true
+//@ 	}
+//@ 	if !h1 {
+//@ 		return Panics(it.Next()) && verifspec.IterPos(r) == p1
+//@ 	}
+//@ 	v := it.Next()
+//@ 	return Eq(v, verifspec.IterAt[T](r, a1)) && verifspec.IterPos(r) == a1+1 && !verifspec.Cell[Option[T]](it, "first").IsDefined() && verifspec.Cell[bool](it, "found")
+//@ }
+//@ end
+//
+//@ lemma iterDropWhile[T any](r Iterator[T], p func(T) bool, next bool)
+//@   prop C12 C20
+//@   ensures iterDropWhileStep(r, p, next)
+//
